@@ -164,7 +164,8 @@ def resetRead {C : Type} (s : ReadSock C) (remaining : Nat) : Except String (Rea
     else .error "index out of bounds"
   | _ => .error "invalid state"
 
-/-- `ReadFrameLen`, after the frame size is known. -/
+/-- `ReadFrameLen`, after the frame size is known. An invalid frame size is kept in
+`current_frame_size` before the error is returned, so every later poll reports the same error. -/
 def afterSize {C : Type} (P : Params) (s : ReadSock C) (fs remaining : Nat) :
     ReadSock C × Option ROut :=
   if remaining < fs then
@@ -172,7 +173,7 @@ def afterSize {C : Type} (P : Params) (s : ReadSock C) (fs remaining : Nat) :
       ({ s with cur := some fs, st := .readData s.canon }, none)
     else
       ({ s with cur := some fs, st := .readData (s.nread + fs - remaining) }, none)
-  else if fs ≤ P.TAG then (s, some (.err .invalidData))
+  else if fs ≤ P.TAG then ({ s with cur := some fs }, some (.err .invalidData))
   else ({ s with cur := some fs, st := .process none 0 0 0 }, none)
 
 /-- `ReadState::ReadFrameLen` -/
@@ -198,7 +199,10 @@ def frameLenStep {C : Type} (P : Params) (w : WireOps C) (s : ReadSock C) :
 def window {C : Type} (s : ReadSock C) (fs : Nat) : List C :=
   (s.buf.extract s.offset (s.offset + fs)).toList
 
-/-- `ReadState::ProcessNextFrame` with a caller buffer of `k` bytes. -/
+/-- `ReadState::ProcessNextFrame` with a caller buffer of `k` bytes. A decryption failure puts
+`current_frame_size` (and the decrypt buffer) back before returning the error, so the state is
+unchanged and every later poll reports the same error again (`fix: noise: ... poll_read again after a
+decryption error`; before it the next poll panicked with "`frame_size` to exist"). -/
 def processStep {C : Type} (P : Params) (w : WireOps C) (k : Nat) (s : ReadSock C)
     (pending : Option Chunk) (off size fsz : Nat) : ReadSock C × ROut :=
   match pending with
@@ -218,7 +222,7 @@ def processStep {C : Type} (P : Params) (w : WireOps C) (k : Nat) (s : ReadSock 
         if s.offset + fs > s.buf.size then ({ s with cur := none }, .panic "slice out of range")
         else
           match snowRead P w s.nonce (window s fs) k with
-          | none => ({ s with cur := none }, .err .invalidData)
+          | none => (s, .err .invalidData)
           | some ch =>
             ({ s with cur := none, offset := s.offset + fs, st := .readFrameLen,
                       nonce := s.nonce + 1 }, .ok ch.len ch.start)
@@ -228,7 +232,7 @@ def processStep {C : Type} (P : Params) (w : WireOps C) (k : Nat) (s : ReadSock 
           ({ s with cur := none, decBuf := false }, .panic "slice out of range")
         else
           match snowRead P w s.nonce (window s fs) P.MAXF with
-          | none => ({ s with cur := none, decBuf := false }, .err .invalidData)
+          | none => (s, .err .invalidData)
           | some ch =>
             if k > P.MAXF then ({ s with cur := none, decBuf := false }, .panic "slice out of range")
             else
